@@ -2484,3 +2484,97 @@ func c13R23(c *Ctx, r *Report) {
 		}
 	}
 }
+
+// ---- C09.R12: a folded float constant is emitted with all its digits ------------------------------------------------
+
+func init() {
+	lateInits = append(lateInits, func() {
+		props["C09"].Quick = append(props["C09"].Quick, c09R12)
+		props["C09"].Explanation += " (R12) the text a compile-time float value is emitted from is produced with big.Float.Text(…, -1) — every digit the value has — never with big.Float.String(), which rounds to ten significant digits."
+	})
+}
+
+func c09R12(c *Ctx, r *Report) {
+	const rule = "C09.R12"
+	r.Describe(rule, "hir/consteval and mir/gen: no call of (*big.Float).String; every call of (*big.Float).Text has the precision argument -1")
+	n, texts := 0, 0
+	for _, rel := range []string{"internal/hir/consteval", pkgMIRGen, "internal/hir/analysis"} {
+		for _, fn := range c.AllFns(rel) {
+			if fn.Decl.Body == nil {
+				continue
+			}
+			info := fn.Info()
+			for _, cl := range callsIn(fn.Decl.Body, true) {
+				f := callee(info, cl)
+				if f == nil {
+					continue
+				}
+				recv, isBig := isBigMethod(f)
+				if !isBig || recv != "Float" {
+					continue
+				}
+				switch f.Name() {
+				case "String":
+					n++
+					r.Fail(rule, fn.Name(), "big.Float.String()", c.pos(cl.Pos()),
+						"a compile-time float is turned into text with ten significant digits, and that text is what the constant is emitted from: `const P: f64 = 3.14159265358979; match pi() { P => … }` compares with 3.141592654 and takes the other arm, while the same program with `let P` matches")
+				case "Text":
+					n++
+					texts++
+					good := false
+					if len(cl.Args) == 2 {
+						if v := constOf(info, cl.Args[1]); v != nil && intVal(v) == -1 {
+							good = true
+						}
+					}
+					r.Check(good, rule, fn.Name(), "big.Float.Text with precision -1", c.pos(cl.Pos()), "a compile-time float is rendered with a fixed number of digits")
+				}
+			}
+		}
+	}
+	r.Floor(rule, texts, 1, "renderings of compile-time floats")
+}
+
+// ---- C18.R15: the lazily made slot of a parameter has the parameter's declared type -------------------------------
+
+func init() {
+	lateInits = append(lateInits, func() {
+		props["C18"].Quick = append(props["C18"].Quick, c18R15)
+		props["C01"].Quick = append(props["C01"].Quick, c18R15)
+		props["C18"].Explanation += " (R15) addrForIdent allocates the slot it makes for a parameter on first use with the symbol's declared type; the identifier's own type is the narrowed payload type inside `if p != none` / `if p is T` and is only the fallback when the symbol has none."
+	})
+}
+
+func c18R15(c *Ctx, r *Report) {
+	const rule = "C18.R15"
+	r.Describe(rule, "mir/gen.addrForIdent: the type argument of every emitAllocaInEntry call is a variable whose first definition is `<ident>.Symbol.Type` (a later `= <ident>.Type` only under a nil test of it)")
+	fn := c.LookupFn(pkgMIRGen, "(*functionBuilder).addrForIdent")
+	if !r.Anchor(rule, fn != nil && fn.Decl.Body != nil, "mir/gen.addrForIdent") {
+		return
+	}
+	info := fn.Info()
+	n := 0
+	for _, cl := range callsIn(fn.Decl.Body, false) {
+		f := callee(info, cl)
+		if f == nil || f.Name() != "emitAllocaInEntry" || len(cl.Args) < 1 {
+			continue
+		}
+		n++
+		good := false
+		if o := objOf(info, cl.Args[0]); o != nil {
+			if _, isVar := o.(*types.Var); isVar && !o.(*types.Var).IsField() {
+				defs := localDefs(fn)[o]
+				if len(defs) > 0 {
+					if sel, ok := ast.Unparen(defs[0]).(*ast.SelectorExpr); ok && sel.Sel.Name == "Type" {
+						if inner, ok := ast.Unparen(sel.X).(*ast.SelectorExpr); ok && inner.Sel.Name == "Symbol" {
+							good = true
+						}
+					}
+				}
+			}
+		}
+		r.Check(good, rule, fn.Name(), "slot type "+exprStr(cl.Args[0]), c.pos(cl.Pos()),
+			"the slot of a parameter is allocated with the type the identifier has where it is first addressed; inside `if p != none { … }` that is the payload type, smaller than the optional that is then copied into the slot: `fn h(p: P?) -> i32 { if p != none { return p.Y; } return -1; }` copied 12 bytes into an 8-byte slot and the program died with SIGSEGV")
+	}
+	r.Floor(rule, n, 1, "lazy parameter slots")
+}
